@@ -289,7 +289,14 @@ fn judge(p: &Prog, bits: u32, r: &serde_json::Value) -> Option<Failure> {
             } else if multi && msg.starts_with("expected ValueRef") {
                 "shape:value-of-wrong-shape:multi-record-alts".to_string()
             } else if msg.starts_with("Expected record, got") {
-                "ice:vm/src/compiler.rs:expected-record:empty-record-pattern".to_string()
+                // vm/src/compiler.rs compile_let_pattern: the pattern's type is not a record
+                if msg.contains("typ: Forall") {
+                    "ice:vm/src/compiler.rs:expected-record:record-pattern-on-generalised-value".to_string()
+                } else if msg.contains("fields: []") {
+                    "ice:vm/src/compiler.rs:expected-record:empty-record-pattern".to_string()
+                } else {
+                    "ice:vm/src/compiler.rs:expected-record".to_string()
+                }
             } else {
                 // the leading words of the message (no addresses, names or types): a stable key
                 let head: String = msg.chars().take_while(|c| c.is_ascii_alphabetic() || *c == ' ' || *c == ',').take(40).collect();
@@ -481,9 +488,9 @@ fn main() {
     }
     let thorough = args.thorough();
     let get = |k: &str, d: usize| args.extra.get(k).and_then(|v| v.parse().ok()).unwrap_or(d);
-    let n_constructed = get("constructed", if thorough { 22_000 } else { 1_500 });
-    let n_mutants = get("mutants", if thorough { 45_000 } else { 3_000 });
-    let n_modules = get("modules", if thorough { 2_500 } else { 160 });
+    let n_constructed = get("constructed", if thorough { 18_000 } else { 1_500 });
+    let n_mutants = get("mutants", if thorough { 36_000 } else { 3_000 });
+    let n_modules = get("modules", if thorough { 2_000 } else { 160 });
     let workers = get("workers", 8);
     let shrink_budget = get("shrink", 120);
     let full_pct = get("full_pct", if thorough { 100 } else { 30 });
